@@ -59,6 +59,14 @@ def payload(i, shape):
     if shape == 'tuple':
         # shallowly immutable container with mutable content
         return ({'id': i, 'a': [i, {'b': [i]}]}, [i, i + 1], 'txt%d' % i)
+    if shape == 'toparr':
+        # the example itself is an array (weakly referencable, unlike dict / list)
+        return np.arange(3) + i
+    if shape == 'objarr':
+        # a ragged (object dtype) array: its elements are mutable Python lists
+        arr = np.empty(2, dtype=object)
+        arr[0], arr[1] = [i], [i, i + 1]
+        return {'id': i, 'arr': arr}
     ex = {'id': i, 's': 'txt%d' % i}
     if shape in ('nested', 'all'):
         ex['a'] = [i, {'b': [i, i + 1]}, [1, 2]]
@@ -73,7 +81,7 @@ def gen(rng, tier, index):
     store = rng.choice(STORES)
     n = rng.randrange(1, 6)
     kind = 'list' if store == 'new_wu' else rng.choice(['list', 'dict'])
-    shape = rng.choice(['nested', 'array', 'all', 'flatlist'])
+    shape = rng.choice(['nested', 'array', 'all', 'flatlist', 'toparr', 'objarr'])
     if store.endswith('_tuple'):
         shape = 'tuple'
     if store == 'new_json':
@@ -174,6 +182,13 @@ def mutate(v, how):
                 done = mutate(part, how) or done
         return done
     try:
+        if isinstance(v, np.ndarray):
+            v[0] = -77
+            return True
+        if isinstance(v, dict) and isinstance(v.get('arr'), np.ndarray) and \
+                v['arr'].dtype == object and how in ('array', 'append', 'nested'):
+            v['arr'][0].append('MUT')       # in place, inside the object array
+            return True
         if isinstance(v, dict):
             if how == 'set':
                 v['id'] = 'MUT'
